@@ -240,11 +240,14 @@ Definition archiveinfo (has_filename : bool) (h : header) : res ainfo :=
       | None => Err EOther                                (* _get_method_names: None.folders *)
       | Some folders =>
           let names := get_methods_names (map f_coders folders) in
-          match si_sub st with
-          | None => Err EOther                            (* _is_solid: None.num_unpackstreams_folders *)
-          | Some sub =>
-              Ok (mkAinfo names (existsb (fun f => 1 <? f) (s_nums sub)) (zlen folders) total)
-          end
+          (* _is_solid: some folder with more than one sub-stream.  A graph read without SubStreamsInfo carries, once
+             the archive is open, the object _real_get_contents installed (Assign.install_sub: one sub-stream per
+             folder); without FilesInfo nothing is installed and `substreamsinfo is None: return False` *)
+          let solid := match si_sub st with
+                       | Some sub => existsb (fun f => 1 <? f) (s_nums sub)
+                       | None => false
+                       end in
+          Ok (mkAinfo names solid (zlen folders) total)
       end
   end.
 
@@ -875,6 +878,10 @@ Proof.
 Qed.
 
 (* ---------- archiveinfo ---------- *)
+(* sub-streams per folder: one each when SubStreamsInfo is absent *)
+Definition nums_of (st : streamsinfo) (folders : list folder) : list Z :=
+  match si_sub st with Some sub => s_nums sub | None => repeat 1 (length folders) end.
+
 Lemma archiveinfo_agrees_header (hn : bool) (h : header) (a : ainfo) :
   archiveinfo hn h = Ok a ->
   exists ps,
@@ -882,10 +889,10 @@ Lemma archiveinfo_agrees_header (hn : bool) (h : header) (a : ainfo) :
     /\ match h_streams h with
        | None => ai_blocks a = 0 /\ ai_solid a = false /\ ai_method_names a = []
        | Some st =>
-           exists folders sub,
-             si_folders st = Some folders /\ si_sub st = Some sub
+           exists folders,
+             si_folders st = Some folders
              /\ ai_blocks a = zlen folders
-             /\ (ai_solid a = true <-> exists n, In n (s_nums sub) /\ 1 < n)
+             /\ (ai_solid a = true <-> exists n, In n (nums_of st folders) /\ 1 < n)
              /\ ai_method_names a = get_methods_names (map f_coders folders)
        end.
 Proof.
@@ -895,28 +902,44 @@ Proof.
   exists ps. split; [reflexivity|].
   destruct (h_streams h) as [st|] eqn:Es.
   - destruct (si_folders st) as [folders|] eqn:Efo; [|discriminate].
-    destruct (si_sub st) as [sub|] eqn:Esu; [|discriminate].
     inversion H; subst; clear H. simpl. split; [reflexivity|].
-    exists folders, sub. split; [reflexivity|]. split; [reflexivity|]. split; [reflexivity|]. split; [|reflexivity]. split.
-    + intros He. apply existsb_exists in He as (n & Hn & Hlt). exists n. split; [exact Hn | lia].
-    + intros (n & Hn & Hlt). apply existsb_exists. exists n. split; [exact Hn | lia].
+    exists folders. split; [reflexivity|]. split; [reflexivity|]. split; [|reflexivity].
+    unfold nums_of. destruct (si_sub st) as [sub|] eqn:Esu.
+    + split.
+      * intros He. apply existsb_exists in He as (n & Hn & Hlt). exists n. split; [exact Hn | lia].
+      * intros (n & Hn & Hlt). apply existsb_exists. exists n. split; [exact Hn | lia].
+    + split; [discriminate|]. intros (n & Hn & Hlt). apply repeat_spec in Hn. lia.
   - inversion H; subst; clear H. simpl. repeat split.
 Qed.
 
-(* archiveinfo() answers for every archive opened by path -- members or not, main streams or not -- as long as
-   main streams, when present, come with SubStreamsInfo (an archive with data members and no SubStreamsInfo does
-   not open at all: impl_plans is Err) *)
+(* archiveinfo() answers for every archive opened by path -- members or not, main streams or not, SubStreamsInfo or
+   not -- as long as main streams, when present, carry folders *)
 Lemma archiveinfo_total_header (h : header) ps :
   impl_plans h = Ok ps ->
-  (forall st, h_streams h = Some st -> si_folders st <> None /\ si_sub st <> None) ->
+  (forall st, h_streams h = Some st -> si_folders st <> None) ->
   exists a, archiveinfo true h = Ok a.
 Proof.
   intros Hi Hsub. unfold archiveinfo. rewrite Hi. simpl.
   destruct (h_streams h) as [st|] eqn:Hs; [|eauto].
-  destruct (Hsub st eq_refl) as [Hf Hsu].
-  destruct (si_folders st) as [folders|]; [|contradiction].
-  destruct (si_sub st) as [sub|]; [eauto | contradiction].
+  pose proof (Hsub st eq_refl) as Hf.
+  destruct (si_folders st) as [folders|]; [eauto|contradiction].
 Qed.
+
+(* a header without SubStreamsInfo: two folders, one member each, a directory between them *)
+Definition nosub_header : header :=
+  mkHeader (Some (mkStreams (Some (mkPack 0 2 [3; 5] [] []))
+                            (Some [mkFolder [mkCoder [0] 1 1 None] [] [0] [3] true (Some 11);
+                                   mkFolder [mkCoder [0] 1 1 None] [] [0] [5] false None])
+                            None))
+           (Some [mkFile false (Some [97]) None None None (Some (Some 32));
+                  mkFile true (Some [100]) None None None (Some (Some 16));
+                  mkFile false (Some [98]) None None None (Some (Some 32))]) [false].
+Lemma archiveinfo_nosub_header :
+  (exists ps, impl_plans nosub_header = Ok ps /\
+     map (fun p => (af_uncompressed p, ip_crc p)) ps = [(3, Some 11); (0, None); (5, None)])
+  /\ archiveinfo true nosub_header = Ok (mkAinfo [[67; 79; 80; 89]] false 2 8)
+  /\ archiveinfo true (install_sub nosub_header) = archiveinfo true nosub_header.
+Proof. split; [eexists; split; vm_compute; reflexivity|]. split; vm_compute; reflexivity. Qed.
 
 (* the empty archive and an archive of directories / empty files stored without main streams *)
 Definition empty_header : header := mkHeader None None [].
